@@ -322,22 +322,30 @@ def audit_sources():
     return bad
 
 
+def prop_files(pid):
+    """Props/<pid>.v plus continuation files Props/<pid>b.v, <pid>c.v ..."""
+    d = os.path.join(COQ, "Props")
+    out = []
+    if os.path.isdir(d):
+        for f in sorted(os.listdir(d)):
+            if re.fullmatch(re.escape(pid) + r"[a-z]?\.v", f):
+                out.append("Props/" + f)
+    return out
+
+
 def check_proofs(pid):
-    """Rebuild Props/<pid>.vo (full .vo build of it and everything it depends on), re-run coqc
-    on the property file to collect Print Assumptions, audit.  Returns dict."""
+    """Rebuild the property files of <pid> (full .vo build of them and of everything they depend
+    on), re-run coqc on each to collect Print Assumptions, audit the sources.  Returns dict."""
     t0 = time.time()
-    rel = "Props/%s.v" % pid
-    src = os.path.join(COQ, rel)
-    res = {"file": "coq/" + rel, "theorems": [], "obligations": 0, "discharged": 0, "axioms": [],
-           "errors": [], "checker_cmd": "make -C coq Props/%s.vo && coqc -Q coq SL coq/Props/%s.v (Print Assumptions), Coq 8.16.1" % (pid, pid)}
-    if not os.path.exists(src):
-        res["errors"].append("missing " + rel)
+    files = prop_files(pid)
+    res = {"file": ", ".join("coq/" + f for f in files), "theorems": [], "obligations": 0, "discharged": 0,
+           "axioms": [], "errors": [],
+           "checker_cmd": "make -C coq %s && coqc -Q coq SL <each file> (Print Assumptions), Coq 8.16.1" % (
+               " ".join(f[:-2] + ".vo" for f in files))}
+    if not files:
+        res["errors"].append("missing Props/%s.v" % pid)
         return res
-    text = open(src).read()
-    thms = re.findall(r"^\s*Theorem\s+(\w+)", text, re.M)
-    res["theorems"] = thms
-    res["obligations"] = len(thms)
-    rc, out = build_coq(["Props/%s.vo" % pid])
+    rc, out = build_coq([f[:-2] + ".vo" for f in files])
     if rc != 0:
         m = re.search(r'File "([^"]+)", line (\d+)[^\n]*\n(.*?)(?:\nmake|\Z)', out, re.S)
         where = ("%s line %s: %s" % (m.group(1), m.group(2), m.group(3).strip()[:600])) if m else out[-1500:]
@@ -345,35 +353,39 @@ def check_proofs(pid):
         res["wall_s"] = time.time() - t0
         return res
     os.makedirs(os.path.join(BUILD, "props"), exist_ok=True)
-    with Lock("coq"):
-        rc, out = sh(["coqc", "-Q", ".", "SL", "-w", "-notation-overridden,-deprecated-hint-without-locality,-deprecated-instance-without-locality",
-                      rel, "-o", os.path.join(BUILD, "props", pid + ".vo")], cwd=COQ, timeout=1200)
-    if rc != 0:
-        res["errors"].append("coqc on %s failed: %s" % (rel, out[-1500:]))
-        res["wall_s"] = time.time() - t0
-        return res
-    # Print Assumptions output: either "Closed under the global context" or "Axioms:" + entries
-    blocks = re.split(r"(?=Closed under the global context|Axioms:)", out)
-    n_reports = 0
     axioms = set()
-    for b in blocks:
-        if b.startswith("Closed under the global context"):
-            n_reports += 1
-        elif b.startswith("Axioms:"):
-            n_reports += 1
-            for m in re.finditer(r"^([A-Za-z_][\w.']*)\s*:", b[len("Axioms:"):], re.M):
-                axioms.add(m.group(1))
+    for rel in files:
+        text = open(os.path.join(COQ, rel)).read()
+        thms = re.findall(r"^\s*Theorem\s+(\w+)", text, re.M)
+        res["theorems"] += thms
+        with Lock("coq"):
+            rc, out = sh(["coqc", "-Q", ".", "SL", "-w",
+                          "-notation-overridden,-deprecated-hint-without-locality,-deprecated-instance-without-locality",
+                          rel, "-o", os.path.join(BUILD, "props", os.path.basename(rel) + "o")], cwd=COQ, timeout=1800)
+        if rc != 0:
+            res["errors"].append("coqc on %s failed: %s" % (rel, out[-1500:]))
+            continue
+        blocks = re.split(r"(?=Closed under the global context|Axioms:)", out)
+        n_reports = 0
+        for b in blocks:
+            if b.startswith("Closed under the global context"):
+                n_reports += 1
+            elif b.startswith("Axioms:"):
+                n_reports += 1
+                for m in re.finditer(r"^([A-Za-z_][\w.']*)\s*:", b[len("Axioms:"):], re.M):
+                    axioms.add(m.group(1))
+        n_pa = len(re.findall(r"^\s*Print Assumptions\s+(\w+)", text, re.M))
+        if n_pa < len(thms) or n_reports < len(thms):
+            res["errors"].append("%s: %d theorems but %d Print Assumptions (%d reports)" % (rel, len(thms), n_pa, n_reports))
+    res["obligations"] = len(res["theorems"])
     res["axioms"] = sorted(axioms)
     unknown = [a for a in axioms if a not in ALLOWED_AXIOMS]
     if unknown:
         res["errors"].append("axioms outside the allowlist: " + ", ".join(unknown))
-    n_pa = len(re.findall(r"^\s*Print Assumptions\s+(\w+)", text, re.M))
-    if n_pa < len(thms) or n_reports < len(thms):
-        res["errors"].append("%d theorems but %d Print Assumptions (%d reports)" % (len(thms), n_pa, n_reports))
     bad = audit_sources()
     if bad:
         res["errors"].append("forbidden constructs: " + "; ".join(bad[:10]))
-    res["discharged"] = len(thms) if not res["errors"] else 0
+    res["discharged"] = res["obligations"] if not res["errors"] else 0
     res["wall_s"] = time.time() - t0
     return res
 
